@@ -72,8 +72,17 @@ func collectFacts(parents map[ast.Node]ast.Node, at ast.Node) []condFact {
 			} else if x.Else != nil && child == x.Else {
 				add(x.Cond, true)
 			}
-		case *ast.BlockStmt:
-			for _, s := range x.List {
+		case *ast.BlockStmt, *ast.CaseClause, *ast.CommClause:
+			var list []ast.Stmt
+			switch b := x.(type) {
+			case *ast.BlockStmt:
+				list = b.List
+			case *ast.CaseClause:
+				list = b.Body
+			case *ast.CommClause:
+				list = b.Body
+			}
+			for _, s := range list {
 				if s == child || s.Pos() >= child.Pos() {
 					break
 				}
